@@ -3,6 +3,7 @@
 use super::super::*;
 use crate::slice_file::Span;
 use crate::utils::ptr_util::WeakPtr;
+use std::collections::HashSet;
 
 #[derive(Debug)]
 pub struct Interface {
@@ -50,14 +51,30 @@ impl Interface {
     }
 
     pub fn all_base_interfaces(&self) -> Vec<&Interface> {
-        let mut all_bases = self.base_interfaces();
-        all_bases.extend(self.bases.iter().flat_map(|type_ref| type_ref.all_base_interfaces()));
-
-        // Filter duplicates created by diamond inheritance in-place.
-        let mut seen_identifiers = std::collections::HashSet::new();
-        all_bases.retain(|base| seen_identifiers.insert(base.parser_scoped_identifier()));
-
+        let mut all_bases = Vec::new();
+        self.collect_base_interfaces(&mut all_bases, &mut HashSet::new(), &mut HashSet::new());
         all_bases
+    }
+
+    /// Appends the base interfaces of this interface to `all_bases`: first the direct bases, then the bases of each
+    /// direct base (recursively), skipping any that are already present. Each interface is only expanded once, so
+    /// this takes linear time, even for interfaces with heavily shared ancestors.
+    fn collect_base_interfaces<'a>(
+        &'a self,
+        all_bases: &mut Vec<&'a Interface>,
+        seen_identifiers: &mut HashSet<String>,
+        expanded_identifiers: &mut HashSet<String>,
+    ) {
+        for base in self.base_interfaces() {
+            if seen_identifiers.insert(base.parser_scoped_identifier()) {
+                all_bases.push(base);
+            }
+        }
+        for base in self.base_interfaces() {
+            if expanded_identifiers.insert(base.parser_scoped_identifier()) {
+                base.collect_base_interfaces(all_bases, seen_identifiers, expanded_identifiers);
+            }
+        }
     }
 }
 
